@@ -225,6 +225,8 @@ def exemptions(repo, fn):
     exemption (skip the element when c / when not p): both become kind `skip` with the skip condition in normal form"""
     out = []
     for kind, key, line in _exemptions(repo, fn):
+        if kind.startswith(("detect:", "descend:")):
+            continue
         if kind == "filter":
             kind, key = "skip", nnf(neg(key))
         elif kind == "continue^0" and " & " not in key and not key.startswith("unless") and not key.startswith("arm "):
@@ -352,6 +354,12 @@ def skips_rule(repo, res, table, only=None, rule="SKIPS", exclude=()):
             k = (q, kind, key)
             seen.add(k)
             row = allowed.get(k)
+            if row is None:
+                # the same exemption in another function of the same module: code moved into / out of a helper
+                for (rq, rk, rkey), rr in allowed.items():
+                    if rk == kind and rkey == key and rq.split("::")[0] == q.split("::")[0]:
+                        row = rr
+                        break
             res.check(row is not None, rule, f"{rule}:{q}:{kind}:{key[:120]}", (f"listed exemption: {row['why']}" if row else f"`{kind}` under `{key[:160]}` is not among the exemptions confirmed for this validator: elements it lets through are no longer checked (a mistake there is accepted, or a guard that keeps a later pass safe is skipped)"), f"{f.file}:{line}")
     for k, r in allowed.items():
         if (only is None or k[0] in only) and k[0] not in exclude and k not in seen:
